@@ -259,12 +259,15 @@ func childGCS(p params) childOut {
 	for i := range data {
 		data[i] = rng.Bytes(1 + rng.Intn(40))
 	}
+	// f is the filter the goroutines share; it is NOT touched before they start (no warm-up of anything a query
+	// might cache).  The sequential answers come from a second filter object built from the same data.
 	f, err := gcs.BuildGCSFilter(19, 784931, key, data)
-	if err != nil {
-		out.Violations = append(out.Violations, childViolation{"C20:gcs:build", err.Error(), nil})
+	fseq, err2 := gcs.BuildGCSFilter(19, 784931, key, data)
+	if err != nil || err2 != nil {
+		out.Violations = append(out.Violations, childViolation{"C20:gcs:build", fmt.Sprint(err, err2), nil})
 		return out
 	}
-	before, _ := f.NBytes()
+	before, _ := fseq.NBytes()
 	type q struct {
 		single []byte
 		many   [][]byte
@@ -285,10 +288,10 @@ func childGCS(p params) childOut {
 				qs[i].many = append(qs[i].many, rng.Bytes(1+rng.Intn(40)))
 			}
 		}
-		qs[i].want[0], _ = f.Match(key, qs[i].single)
-		qs[i].want[1], _ = f.MatchAny(key, qs[i].many)
-		qs[i].want[2], _ = f.ZipMatchAny(key, qs[i].many)
-		qs[i].want[3], _ = f.HashMatchAny(key, qs[i].many)
+		qs[i].want[0], _ = fseq.Match(key, qs[i].single)
+		qs[i].want[1], _ = fseq.MatchAny(key, qs[i].many)
+		qs[i].want[2], _ = fseq.ZipMatchAny(key, qs[i].many)
+		qs[i].want[3], _ = fseq.HashMatchAny(key, qs[i].many)
 	}
 	var mu sync.Mutex
 	var viol []childViolation
